@@ -106,6 +106,21 @@ func LoadEngine(repo string) (*Engine, error) {
 			}
 		}
 	}
+	for pp, pc := range e.contracts {
+		for _, ci := range pc.ChanInvs {
+			te, err := parser.ParseExpr(ci.Elem)
+			if err != nil {
+				return e, fmt.Errorf("%s: chaninv: %v", pc.File, err)
+			}
+			n := 0
+			env := &SpecEnv{fr: &Frame{vc: &VC{eng: e, U: NewUniverse()}}, pkg: e.spkgs[pp], vars: map[string]*Val{}, nq: &n}
+			t, err := env.resolveType(te)
+			if err != nil || t == nil {
+				return e, fmt.Errorf("%s: chaninv: cannot resolve %s", pc.File, ci.Elem)
+			}
+			ci.resolved = types.TypeString(t, nil)
+		}
+	}
 	e.allFuncs = ssautil.AllFunctions(prog)
 	for f := range e.allFuncs {
 		if f.Pkg != nil && e.inModule(f) {
@@ -214,13 +229,44 @@ func (e *Engine) ifaceContract(c *ssa.CallCommon) *FuncContract {
 }
 
 func (e *Engine) findGhost(p *ssa.Package, name string) *GhostFunc {
-	if p == nil {
-		return nil
+	if p != nil {
+		if pc := e.contracts[p.Pkg.Path()]; pc != nil {
+			if g := pc.Ghosts[name]; g != nil {
+				return g
+			}
+		}
 	}
-	if pc := e.contracts[p.Pkg.Path()]; pc != nil {
-		return pc.Ghosts[name]
+	// ghost functions form one namespace across the module
+	var keys []string
+	for k := range e.contracts {
+		keys = append(keys, k)
+	}
+	sort.Strings(keys)
+	for _, k := range keys {
+		if g := e.contracts[k].Ghosts[name]; g != nil {
+			return g
+		}
 	}
 	return nil
+}
+
+// chanInvs returns the channel invariants declared (in any package) for element type t.
+func (e *Engine) chanInvs(t types.Type) []*ChanInv {
+	var out []*ChanInv
+	var keys []string
+	for k := range e.contracts {
+		keys = append(keys, k)
+	}
+	sort.Strings(keys)
+	ts := types.TypeString(t, nil)
+	for _, k := range keys {
+		for _, ci := range e.contracts[k].ChanInvs {
+			if ci.resolved == ts {
+				out = append(out, ci)
+			}
+		}
+	}
+	return out
 }
 
 func (e *Engine) findDefine(p *ssa.Package, name string) *Define {
